@@ -83,6 +83,7 @@ case "$C_MODE" in
   fail_after_partial) printf 'PARTIAL' > "$out"; echo "died" >&2; die;;
   fail_after_complete) full; res; echo "died late" >&2; die;;
   no_output) :;;
+  wipe_outdir) full; rm -rf "$outdir"; echo "cleaned up after myself" >&2; die;;
   wrong_name) printf 'OTHER-%s' "$SEQ" > "$outdir/other.$fmt";;
   stray) full; res; : > "$outdir/.~lock.$stem.$fmt#"; : > "$(dirname "$input")/.~lock.$base#";;
 esac
@@ -90,9 +91,11 @@ exit 0
 """
 
 V_MODES_FAIL = ["fail", "garbage", "old", "missing"]
-C_MODES_FAIL = ["fail_before", "fail_after_partial", "fail_after_complete", "no_output", "wrong_name", "vanish"]
+C_MODES_FAIL = ["fail_before", "fail_after_partial", "fail_after_complete", "no_output", "wrong_name", "vanish",
+                "wipe_outdir"]
 DIE_MODES = ["exit1", "exit77", "exit139", "exit255", "segv", "kill"]
-DUCK_BAD = ["ret_str", "ret_list", "ret_none", "ret_missing_path", "raise_after_output", "raise_before_output"]
+DUCK_BAD = ["ret_str", "ret_list", "ret_none", "ret_missing_path", "raise_after_output", "raise_before_output",
+            "raise_after_wiping_outdir"]
 E_EXCS = ["InjectedFault", "MemoryError", "KeyboardInterrupt", "OSError"]
 
 
@@ -173,8 +176,17 @@ def gen_plan(rng) -> dict:
         ops.append({"kind": kind, "doc": di, "target": gen_target(rng, kind), "fault": fault, "converter": conv,
                     "res": rng.choice([0, 1, 2]) if kind == "write_html" else 0,
                     "stray": rng.random() < 0.15})
+    # the user tidies up: directories created for an earlier export are removed before the next one
+    for i, o in enumerate(ops):
+        o["id"] = i  # stable name for the directories this export creates (survives minimisation)
+    withdirs = [i for i, o in enumerate(ops) if o["target"]["missing_parents"] > 0]
+    for i in reversed(withdirs):
+        if i + 1 < len(ops) and rng.random() < 0.5:
+            ops.insert(i + 1, {"kind": "user_rmtree", "of_id": ops[i]["id"], "style": ops[i]["target"]["style"]})
     # reuse an earlier target sometimes (existing file + existing resource dir)
     for i in range(1, len(ops)):
+        if ops[i]["kind"] == "user_rmtree":
+            continue
         if rng.random() < 0.35:
             j = rng.randrange(i)
             if ops[j]["kind"] == ops[i]["kind"]:
@@ -325,6 +337,9 @@ class DuckConverter:
         m = self.mode
         if m == "raise_before_output":
             raise RuntimeError("duck converter failed before output")
+        if m == "raise_after_wiping_outdir":
+            shutil.rmtree(str(output_dir), ignore_errors=True)
+            raise RuntimeError("duck converter removed its output directory and failed")
         if m in ("ok", "raise_after_output", "ret_str", "ret_list"):
             data = f"DUCK-{format}:{self.seq}:".encode() + hashlib.sha256(inp.read_bytes()).hexdigest().encode()
             out.write_bytes(data)
@@ -526,6 +541,15 @@ def _exec_faults(plan, sb, rtflite, conv_mod, arg) -> dict:
 
         doc_cls.rtf_encode = _capturing_encode
     for i, op in enumerate(ops):
+        if op["kind"] == "user_rmtree":
+            # the simulated user removes the directories an earlier export created
+            base = {"tilde": os.path.join(sb.home, "docs"), "relative": os.path.join(sb.cwd, "rel")}.get(
+                op["style"], sb.out)
+            d = os.path.join(base, f"m{op['of_id']}_0")
+            existed = os.path.isdir(d)
+            shutil.rmtree(d, ignore_errors=True)
+            log.append({"i": i, "kind": "user_rmtree", "skipped": "user action", "removed": existed})
+            continue
         ev = {"i": i, "kind": op["kind"], "recovery": bool(op.get("recovery")), "fault": op["fault"],
               "converter": op["converter"], "target": op["target"], "doc": op["doc"]}
         doc = docs[op["doc"]]
@@ -534,7 +558,7 @@ def _exec_faults(plan, sb, rtflite, conv_mod, arg) -> dict:
             log.append(ev)
             continue
         sb.install_soffice() if not os.path.exists(sb.soffice) else None
-        targ_arg, targ_abs = resolve_target(sb, op["target"], i)
+        targ_arg, targ_abs = resolve_target(sb, op["target"], op.get("id", f"x{i}"))
         ev["target_key"] = sb.key_of(targ_abs)
         pre = op["target"]["pre"]
         if pre == "file" and not os.path.lexists(targ_abs):
@@ -983,7 +1007,7 @@ def freeze(plan: dict, res: dict) -> dict:
 
     p = json.loads(json.dumps(plan))
     for ev in res["log"]:
-        if ev["i"] < len(p["ops"]) and ev.get("k") is not None and p["ops"][ev["i"]]["fault"]["kind"] == "E":
+        if ev["i"] < len(p["ops"]) and ev.get("k") is not None and p["ops"][ev["i"]].get("fault", {}).get("kind") == "E":
             p["ops"][ev["i"]]["fault"]["k"] = ev["k"]
     return p
 
@@ -1128,8 +1152,8 @@ def summarise(plan, res, idx) -> dict:
         "recovery_exports": sum(1 for e in log if e["recovery"]),
         "fault_kinds": fk, "cells": sorted(cells), "nontrivial": sorted(nontriv), "probes": probes,
         "steps": sum(e.get("steps", 0) for e in log),
-        "sample": {"ops": [{"kind": o["kind"], "fault": o["fault"], "target": o["target"], "converter": o["converter"]}
-                           for o in plan["ops"]],
+        "sample": {"ops": [{"kind": o["kind"], "fault": o.get("fault"), "target": o.get("target"),
+                            "converter": o.get("converter"), "of_id": o.get("of_id")} for o in plan["ops"]],
                    "outcomes": [e["outcome"] for e in log]} if idx < 3 else None,
     }
 
